@@ -6,19 +6,17 @@
 # 2: build failure; 3: harness failure (never a violation).
 PROP="$1"
 TIER="${2:-${VERIF_TIER:-quick}}"
-export GOFLAGS=-mod=mod GOPROXY=off GOSUMDB=off GOTOOLCHAIN=local TZ=UTC
 VERIF_DIR="$(cd "$(dirname "$0")" && pwd)"
 export VERIF_DIR
-mkdir -p "$VERIF_DIR/.build"
-cd "$VERIF_DIR/sim" || exit 2
+. "$VERIF_DIR/build.sh"
+build_plain || exit 2
+BIN="$VERIF_DIR/.build/ottosim"
 case "$PROP" in
-  C20|C17R) RACE="-race"; BIN="$VERIF_DIR/.build/ottosim_race" ;;
-  *)   RACE=""; BIN="$VERIF_DIR/.build/ottosim" ;;
+  C20)
+    # children run under the race detector; a report aborts the child with exit 66
+    build_race || exit 2
+    export GORACE="halt_on_error=1 exitcode=66"
+    exec "$BIN" check --prop "$PROP" --tier "$TIER" --childbin "$VERIF_DIR/.build/ottosim_race" --altbin "$BIN" ;;
+  *)
+    exec "$BIN" check --prop "$PROP" --tier "$TIER" ;;
 esac
-if ! go build -tags verif $RACE -o "$BIN.$$" . ; then
-  echo "check.sh: build of the simulator against /repo failed" >&2
-  rm -f "$BIN.$$"
-  exit 2
-fi
-mv "$BIN.$$" "$BIN"
-exec "$BIN" check --prop "$PROP" --tier "$TIER"
